@@ -839,3 +839,63 @@ func sameValue(a, b ssa.Value) bool {
 	}
 	return resolveCell(a) == resolveCell(b) && resolveCell(a) != a
 }
+
+// vret is one way a function hands a result back: a Return whose operand is a (non-loop) phi is split into one
+// virtual return per incoming edge, positioned at the end of the predecessor block. Source-level result variables
+// (`r = x; break` ... `return r`, as produced by the pre-inliner or written by hand) thereby look like `return x`.
+type vret struct {
+	ret *ssa.Return
+	val ssa.Value
+	at  ssa.Instruction
+}
+
+func virtualReturns(fn *ssa.Function, idx int) []vret {
+	var out []vret
+	var expand func(ret *ssa.Return, v ssa.Value, at ssa.Instruction, depth int)
+	expand = func(ret *ssa.Return, v ssa.Value, at ssa.Instruction, depth int) {
+		ph, ok := v.(*ssa.Phi)
+		if !ok || depth > 3 {
+			out = append(out, vret{ret, v, at})
+			return
+		}
+		for _, p := range ph.Block().Preds {
+			if ph.Block().Dominates(p) {
+				out = append(out, vret{ret, v, at}) // loop-carried: leave it
+				return
+			}
+		}
+		// only a phi that merges right in front of the return (nothing but phis and jumps in between) is a
+		// result variable; a merge further up is ordinary data flow
+		for b := ph.Block(); ; {
+			pure := true
+			for _, in := range b.Instrs {
+				switch in.(type) {
+				case *ssa.Phi, *ssa.Jump, *ssa.Return, *ssa.DebugRef, *ssa.RunDefers:
+				default:
+					pure = false
+				}
+			}
+			if !pure {
+				out = append(out, vret{ret, v, at})
+				return
+			}
+			if b == ret.Block() {
+				break
+			}
+			if len(b.Succs) != 1 {
+				out = append(out, vret{ret, v, at})
+				return
+			}
+			b = b.Succs[0]
+		}
+		for i, p := range ph.Block().Preds {
+			expand(ret, ph.Edges[i], p.Instrs[len(p.Instrs)-1], depth+1)
+		}
+	}
+	for _, r := range returnsOf(fn) {
+		if idx < len(r.Results) {
+			expand(r, r.Results[idx], r, 0)
+		}
+	}
+	return out
+}
